@@ -6,6 +6,14 @@ from . import spatial
 
 LEVEL = "other"
 RULES = {
+    "R02.1": "operator index relation (loop-nest extraction, compared modulo loop-variable names): convolution accumulates "
+             "x_pad[c][oh*s0 + kh*d0][ow*s1 + kw*d1] * K[f][c][kh][kw] into y[f][oh][ow] (sum starts at 0, reduction over exactly c, kh, kw, "
+             "only bounds guards); transposed convolution accumulates x[c][i][j] * K[k][c][ki][kj] into y[k][i*s0 + ki - p0][j*s1 + kj - p1] "
+             "with the crop guards (>= 0 via checked_sub, < extent); max-pool keeps a running maximum (strict >, initial f32::MIN) over "
+             "x[c][h+k][w+l] and records (h+k, w+l)",
+    "R02.4": "dense = activation(W.x + b): pre = weights.dot(x); bias added iff present; post = activation.forward(pre); returns (pre, post)",
+    "R02.5": "composition: Network::_forward feeds the last activated tensor into each layer in order and appends its outputs; "
+             "predict returns the last activated tensor of forward; spatial layers flatten iff their flag is set (after activation and dropout)",
     "R02.2": "axis typing (type-directed dataflow, sa/e3.py): in convolve, pad3d, upsample3d and the three spatial forward passes no "
              "additive / comparison / step / index / tuple-position use combines a height quantity (`.0` of kernel/stride/padding/"
              "dilation, x[0].len(), row index) with a width quantity (`.1`, x[0][0].len(), column index)",
@@ -20,7 +28,196 @@ FWD_FNS = ["convolution::Convolution::convolve", "convolution::Convolution::forw
            "maxpool::Maxpool::forward", "tensor::pad3d", "tensor::upsample3d"]
 
 
+from .. import mac, macsig
+from ..mac import Access
+from ..e1 import Rat
+from .common import top_stmts_of
+
+
+def r1(ctx):
+    c = ctx.crate
+    # ---- convolution
+    fn = ctx.fn("convolution::Convolution::convolve")
+    ex = mac.extract(c, fn)
+    st = [s_ for s_ in ex.stmts if len(s_.reads) == 2 and isinstance(s_.target, Access)]
+    if len(st) != 1:
+        raise Unestablished("convolve: expected one multiply-accumulate statement, found %d" % len(st), c.loc(fn))
+    f = st[0]
+    roles = {f.target.name: "Y"}
+    for a in f.reads.values():
+        roles[a.name] = "K" if len(a.idx) == 4 else "X"
+    sig, ren, acc = macsig.signature(f, roles)
+    where = c.loc(fn, f.node)
+    ctx.check("R02.1", "convolution:index-relation", sig == macsig.spec_conv(), "index-relation:" + macsig.sig_str(sig), where, macsig.sig_str(sig),
+              "convolve computes %s; the strided, dilated cross-correlation is %s" % (macsig.sig_str(sig), macsig.sig_str(macsig.spec_conv())))
+    red = sorted(ren.get("%s#%d" % (l[1], l[0]), l[1]) for l in f.red_loops)
+    ctx.check("R02.1", "convolution:reduction-over-c-kh-kw", f.op == "+=" and red == ["K1", "K2", "K3"] and str(ex.acc_init.get(_acc_hid(ex, f))) == "0",
+              "reduction:%s:%s" % (f.op, ",".join(red)), where, "sum (from 0) over channels and kernel window", "reduction loops %s, op %s" % (red, f.op))
+    dom = {ren.get("%s#%d" % (l[1], l[0]), l[1]): str(l[3]) for l in f.loops}
+    okd = (dom.get("K0") == "len(kernels)" and dom.get("K1") == "len(kernels[0])" and dom.get("K2") == "len(kernels[0][0])" and dom.get("K3") == "len(kernels[0][0][0])")
+    ya = [v for h, v in ex.allocs.items() if ex.names[h] == f.target.name]
+    okd = okd and ya and dom.get("Y1") == str(ya[0][1]) and dom.get("Y2") == str(ya[0][2]) and all(str(l[2]) == "0" and l[4] is None for l in f.loops)
+    ctx.check("R02.1", "convolution:domain", bool(okd), "domain:" + str(sorted(dom.items())), where, "every loop covers its whole dimension")
+    bounds_only = all(str(g).startswith("and(gt0(") for g in f.guards) and len(f.guards) <= 1
+    ctx.check("R02.1", "convolution:guards", bounds_only, "guards:" + ";".join(str(g) for g in f.guards)[:120], where, "only the input-bounds guard")
+    stores = [s_ for s_ in ex.stmts if s_.op == "=" and isinstance(s_.target, Access) and s_.target.name == f.target.name]
+    ctx.check("R02.1", "convolution:store", len(stores) == 1 and [str(i) for i in stores[0].target.idx] == [str(i) for i in f.target.idx], "store", where, "y[f][oh][ow] = sum")
+    # ---- transposed convolution
+    fn = ctx.fn("deconvolution::Deconvolution::forward")
+    ex = mac.extract(c, fn)
+    st = [s_ for s_ in ex.stmts if len(s_.reads) == 2 and isinstance(s_.target, Access)]
+    if len(st) != 1:
+        raise Unestablished("Deconvolution::forward: expected one multiply-accumulate statement", c.loc(fn))
+    f = st[0]
+    roles = {f.target.name: "Y"}
+    for a in f.reads.values():
+        roles[a.name] = "K" if len(a.idx) == 4 else "X"
+    sig, ren, acc = macsig.signature(f, roles)
+    where = c.loc(fn, f.node)
+    ctx.check("R02.1", "deconvolution:index-relation", sig == macsig.spec_deconv() and f.op == "+=", "index-relation:" + macsig.sig_str(sig), where, macsig.sig_str(sig),
+              "Deconvolution::forward computes %s (%s); the transposed convolution cropped by the padding is %s" % (macsig.sig_str(sig), f.op, macsig.sig_str(macsig.spec_deconv())))
+    lows = sorted(str(macsig.rn(g, ren)) for g in f.guards if str(g).startswith("ge0("))
+    want = sorted([e1.cmp_atom("Ge", Rat.atom("X1") * macsig.S0 + Rat.atom("K2"), macsig.P0), e1.cmp_atom("Ge", Rat.atom("X2") * macsig.S1 + Rat.atom("K3"), macsig.P1)])
+    ups = [g for g in f.guards if str(g).startswith("and(")]
+    ya = [v for h, v in ex.allocs.items() if ex.names[h] == f.target.name]
+    ok_up = False
+    if len(ups) == 1 and ya:
+        oh, ow = ya[0][1], ya[0][2]
+        yi = f.target.idx
+        wantu = e1.fn_atom("and", *sorted([Rat.atom(e1.cmp_atom("Lt", yi[1], oh)), Rat.atom(e1.cmp_atom("Lt", yi[2], ow))], key=str))
+        ok_up = str(wantu) == str(ups[0])
+    ctx.check("R02.1", "deconvolution:crop-guards", lows == want and ok_up, "crop-guards:" + ";".join(lows)[:100], where, "0 <= out index < out extent on both axes",
+              "guards %s / %s" % (lows, [str(u)[:80] for u in ups]))
+    dom = {ren.get("%s#%d" % (l[1], l[0]), l[1]): str(l[3]) for l in f.loops}
+    okd = (dom.get("K0") == "len(kernels)" and dom.get("K1") == "len(kernels[0])" and dom.get("K2") == "len(kernels[0][0])" and dom.get("K3") == "len(kernels[0][0][0])"
+           and dom.get("X1") == "len(x[0])" and dom.get("X2") == "len(x[0][0])" and all(str(l[2]) == "0" and l[4] is None for l in f.loops))
+    ctx.check("R02.1", "deconvolution:domain", okd, "domain:" + str(sorted(dom.items())), where, "every loop covers its whole dimension")
+    # ---- max-pool
+    fn = ctx.fn("maxpool::Maxpool::forward")
+    ex = mac.extract(c, fn)
+    vals = [s_ for s_ in ex.local_stmts if s_.target[2] == "value" and s_.reads]
+    idxs = [s_ for s_ in ex.local_stmts if s_.target[2] == "index"]
+    if len(vals) != 1 or len(idxs) != 1:
+        raise Unestablished("Maxpool::forward: running maximum not found", c.loc(fn))
+    v = vals[0]
+    where = c.loc(fn, v.node)
+    rd = list(v.reads.values())
+    loops = {l[1]: l for l in v.loops}
+    names = [l[1] for l in v.loops]
+    okr = False
+    if len(rd) >= 1 and len(names) == 5:
+        cvar, hvar, wvar, kvar, lvar = ["%s#%d" % (l[1], l[0]) for l in v.loops]
+        r = rd[0]
+        okr = [str(i) for i in r.idx] == [cvar, str(Rat.atom(hvar) + Rat.atom(kvar)), str(Rat.atom(lvar) + Rat.atom(wvar))]
+        kdom = str(v.loops[3][3]) == "self.kernel.0" and str(v.loops[4][3]) == "self.kernel.1"
+        okr = okr and kdom
+    ctx.check("R02.1", "maxpool:window", okr, "window:" + (repr(rd[0]) if rd else "?"), where, "window element x[c][h+k][w+l], k < kernel.0, l < kernel.1")
+    strict = [g for g in v.guards if str(g).startswith("gt0(") and "value#" in str(g)]
+    acc_atom = [a for a, r_ in v.reads.items()]
+    ok_strict = len(strict) == 1
+    if ok_strict:
+        hid = v.target[1]
+        ok_strict = str(strict[0]) == e1.cmp_atom("Gt", Rat.atom(acc_atom[0]), Rat.atom("value#%d" % hid))
+    ctx.check("R02.1", "maxpool:strict-running-maximum", ok_strict and str(ex.acc_init.get(v.target[1])).endswith("::MIN"), "max-update:" + ";".join(str(g) for g in v.guards)[:100], where,
+              "value updated iff x > value, starting from f32::MIN", "update guards %s, initial %s" % ([str(g) for g in v.guards], ex.acc_init.get(v.target[1])))
+    i = idxs[0]
+    oki = False
+    if okr:
+        oki = str(i.rhs) == str(e1.fn_atom("tup", Rat.atom(hvar) + Rat.atom(kvar), Rat.atom(lvar) + Rat.atom(wvar))) and [str(g) for g in i.guards] == [str(g) for g in v.guards]
+    ctx.check("R02.1", "maxpool:argmax-recorded", oki, "argmax:" + str(i.rhs), c.loc(fn, i.node), "index = (h+k, w+l) under the same guard")
+
+
+def _acc_hid(ex, stmt):
+    for hid, v in ex.acc_init.items():
+        if ("%s#%d" % (getattr(stmt, "via_accumulator", "?"), hid)) in ["%s#%d" % (getattr(stmt, "via_accumulator", "?"), hid)]:
+            if getattr(stmt, "via_accumulator", None) is not None:
+                return hid
+    return None
+
+
+def r4(ctx):
+    c = ctx.crate
+    fn = ctx.fn("dense::Dense::forward")
+    xh = pat_binds(fn["params"][1])[0][1]
+    stmts = top_stmts_of(fn["body"])
+    lets = {s_["pat"]["name"]: s_ for s_ in stmts if s_.get("k") == "let" and s_["pat"].get("k") == "bind"}
+    where = c.loc(fn)
+    pre = lets.get("pre")
+    i = strip(pre["init"]) if pre else None
+    ok = i is not None and i.get("k") == "mcall" and i["callee"] == "tensor::Tensor::dot" and pretty(strip(i["recv"])) == "self.weights" and e4.local_hid(i["args"][0]) == xh
+    ctx.check("R02.4", "pre-is-W-dot-x", ok, "pre:" + (short(pretty(i), 60) if i else "?"), where, "pre = self.weights.dot(x)")
+    ph = pre["pat"]["hid"] if pre else None
+    adds = [y for y in walk(fn["body"]) if y.get("k") == "mcall" and y["callee"].startswith("tensor::Tensor::") and y["name"].endswith("_inplace") and e4.local_hid(y["recv"]) == ph]
+    okb = False
+    for s_ in stmts:
+        if s_.get("k") == "if" and strip(s_["c"]).get("k") == "letx" and pretty(strip(strip(s_["c"])["init"])) in ("&self.bias", "self.bias"):
+            bh = pat_binds(strip(s_["c"])["pat"])[0][1]
+            inner = [y for y in walk(s_["th"]) if y in adds]
+            okb = len(adds) == 1 and len(inner) == 1 and adds[0]["name"] == "add_inplace" and e4.local_hid(adds[0]["args"][0]) == bh and s_["el"] is None
+    ctx.check("R02.4", "bias-added-iff-present", okb, "bias:" + ",".join(a["name"] for a in adds), where, "if let Some(bias) = &self.bias { pre.add_inplace(bias) }")
+    post = lets.get("post")
+    j = strip(post["init"]) if post else None
+    ok = j is not None and j.get("k") == "mcall" and j["callee"] == "activation::Function::forward" and e4.local_hid(j["args"][0]) == ph
+    ctx.check("R02.4", "post-is-activation-of-pre", ok, "post:" + (short(pretty(j), 60) if j else "?"), where, "post = self.activation.forward(&pre)")
+    tail = strip(stmts[-1])
+    ok = tail.get("k") == "tup" and [pretty(strip(z)) for z in tail["xs"]] == ["pre", "post"]
+    ctx.check("R02.4", "returns-pre-post", ok, "result:" + short(pretty(tail), 40), where, "(pre, post)")
+    order = [stmts.index(lets[n]) for n in ("pre", "post") if n in lets]
+    bias_i = [k for k, s_ in enumerate(stmts) if s_.get("k") == "if" and strip(s_["c"]).get("k") == "letx" and "bias" in pretty(s_["c"])]
+    ctx.check("R02.4", "bias-before-activation", len(order) == 2 and bias_i and order[0] < bias_i[0] < order[1], "statement-order", where, "dot, then bias, then activation")
+    # Tensor::dot / product / add_inplace semantics are C15's rules
+
+
+def r5(ctx):
+    c = ctx.crate
+    fn = ctx.fn("network::Network::_forward")
+    loops = [x for x in walk(fn["body"]) if x.get("k") == "for"]
+    if len(loops) != 1:
+        raise Unestablished("_forward: expected one layer loop", c.loc(fn))
+    lp = loops[0]
+    it = pretty(strip(lp["iter"]))
+    ctx.check("R02.5", "layer-range-in-order", it in ("self.layers[std::ops::Range { start: from, end: to }]",), "layer-walk:" + short(it, 60), c.loc(fn, lp), "for layer in &self.layers[from..to]")
+    body = top_stmts_of(lp["body"])
+    xl = [s_ for s_ in body if s_.get("k") == "let" and s_["pat"].get("k") == "bind"]
+    okx = bool(xl) and pretty(strip(xl[0]["init"])) == "activated.last().unwrap()"
+    ctx.check("R02.5", "input-is-last-activated", okx, "layer-input:" + (short(pretty(xl[0]["init"]), 50) if xl else "?"), c.loc(fn, lp), "x = activated.last().unwrap()")
+    xh = xl[0]["pat"]["hid"] if xl else None
+    ms = [x for x in walk(lp["body"]) if x.get("k") == "match"]
+    for arm in ms[0]["arms"]:
+        vp, binds = e4.arm_variant(arm)
+        kind = vp.split("::")[-1]
+        fw = [y for y in walk(arm["body"]) if y.get("k") == "mcall" and y["name"] == "forward"]
+        okf = len(fw) == 1 and e4.local_hid(fw[0]["args"][0]) == xh and binds and e4.local_hid(fw[0]["recv"]) == binds[0][1]
+        lt = [s_ for s_ in walk(arm["body"]) if s_.get("k") == "let" and s_["init"] is not None and strip(s_["init"]) is (fw[0] if fw else None)]
+        okp = False
+        if lt:
+            pb = pat_binds(lt[0]["pat"])
+            pushes = {}
+            for y in walk(arm["body"]):
+                if y.get("k") == "mcall" and y["name"] == "push" and strip(y["recv"]).get("k") == "local":
+                    pushes[strip(y["recv"])["name"]] = e4.local_hid(strip(y["args"][0])) if strip(y["args"][0]).get("k") == "local" else pretty(y["args"][0])
+            okp = len(pb) >= 2 and pushes.get("preactivated") == pb[0][1] and pushes.get("activated") == pb[1][1]
+        ctx.check("R02.5", "forward-and-record:" + kind, okf and okp, "arm:" + kind, c.loc(fn, arm["body"]), "(pre, post) = layer.forward(x); push pre, post")
+    fn = ctx.fn("network::Network::predict")
+    t = pretty(fn["body"])
+    ok = "let (_, outputs, _, _) = self.forward(input)" in t and "outputs.last().unwrap().clone()" in t
+    ctx.check("R02.5", "predict-is-last-activation", ok, "predict:" + short(t, 80), c.loc(fn), "predict = forward(input).1.last()")
+    # flatten after activation/dropout in spatial forwards
+    for l in ("convolution::Convolution", "deconvolution::Deconvolution", "maxpool::Maxpool"):
+        f2 = ctx.fn(l + "::forward")
+        st = top_stmts_of(f2["body"])
+        fl = [k for k, s_ in enumerate(st) if s_.get("k") == "if" and pretty(strip(s_["c"])) == "self.flatten"]
+        okf = len(fl) == 1 and "post = post.flatten()" in pretty(st[fl[0]]) and fl[0] < len(st) - 1 and strip(st[-1]).get("k") == "tup" and [pretty(strip(z)) for z in strip(st[-1])["xs"]][:2] == ["pre", "post"]
+        ctx.check("R02.5", "flatten-flag:" + l.split("::")[-1], okf, "flatten-handling", c.loc(f2), "if self.flatten { post = post.flatten() } as the last step")
+
+
 def run(ctx):
+    ctx.guard("R02.1", "operators", r1, ctx)
+    ctx.guard("R02.4", "dense", r4, ctx)
+    ctx.guard("R02.5", "composition", r5, ctx)
+    ctx.floor("R02.1", 11, "")
+    ctx.floor("R02.4", 5, "")
+    ctx.floor("R02.5", 10, "")
     ctx.guard("R02.2", "axis-typing", spatial.axis_typing, ctx, "R02.2", FWD_FNS, 120)
     for l in spatial.LAYERS:
         ctx.guard("R02.3", l, spatial.flat_rechunk, ctx, "R02.3", l)
